@@ -542,6 +542,11 @@ func ruleR07c(c *Ctx) {
 			})
 			c.check(mentioned, "R07c", "children "+key, f.Pos(), "returned by "+tn+".Children()",
 				tn+".Children() does not return the nodes in "+f.Name()+": references inside them escape the data-reference check (and globals / message ids inside are never set)")
+			// a field that holds a list of nodes is returned element for element
+			if _, isSlice := f.Type().Underlying().(*types.Slice); isSlice && mentioned {
+				c.check(coversAllElements(fd, f.Name()), "R07c", "children "+key+" all-elements", f.Pos(), "every element of "+f.Name()+" is returned",
+					tn+".Children() does not visibly return every element of "+f.Name()+" (a whole-slice use, a range over it, or a counted loop from 0 to its length): the elements left out are invisible to the data-reference check and the other tree passes")
+			}
 		}
 	}
 	c.floor("R07c", "node-typed fields of AST nodes", 35, n)
@@ -824,4 +829,69 @@ func appendHelpers(c *Ctx, rel string) map[*types.Func]*types.Var {
 		}
 	}
 	return out
+}
+
+// coversAllElements: the function uses every element of the receiver's slice field: it ranges over it, appends
+// it whole (x...), hands or returns it whole, or indexes it in a loop counted from 0 while i < len(field).
+func coversAllElements(fd *ast.FuncDecl, field string) bool {
+	isField := func(e ast.Expr) bool {
+		se, ok := ast.Unparen(e).(*ast.SelectorExpr)
+		return ok && se.Sel.Name == field
+	}
+	covered := false
+	var stack []ast.Node
+	ast.Inspect(fd.Body, func(x ast.Node) bool {
+		if x == nil {
+			stack = stack[:len(stack)-1]
+			return true
+		}
+		stack = append(stack, x)
+		switch n := x.(type) {
+		case *ast.RangeStmt:
+			if isField(n.X) {
+				covered = true
+			}
+		case *ast.CallExpr:
+			for i, a := range n.Args {
+				if isField(a) {
+					if id, ok := n.Fun.(*ast.Ident); ok && (id.Name == "len" || id.Name == "cap") {
+						continue
+					}
+					if i == len(n.Args)-1 && n.Ellipsis.IsValid() {
+						covered = true // append(nodes, n.F...)
+					} else if id, ok := n.Fun.(*ast.Ident); !ok || id.Name != "append" || i > 0 {
+						covered = true // handed on whole
+					}
+				}
+			}
+		case *ast.ReturnStmt:
+			for _, r := range n.Results {
+				if isField(r) {
+					covered = true
+				}
+			}
+		case *ast.ForStmt:
+			// for i := 0; i < len(n.F); i++ { ... n.F[i] ... }
+			init, ok1 := n.Init.(*ast.AssignStmt)
+			cond, ok2 := n.Cond.(*ast.BinaryExpr)
+			post, ok3 := n.Post.(*ast.IncDecStmt)
+			if ok1 && ok2 && ok3 && len(init.Lhs) == 1 && len(init.Rhs) == 1 && exprKey(init.Rhs[0]) == "0" && post.Tok == token.INC &&
+				cond.Op == token.LSS && exprKey(cond.X) == exprKey(init.Lhs[0]) {
+				if call, ok := ast.Unparen(cond.Y).(*ast.CallExpr); ok && len(call.Args) == 1 && isField(call.Args[0]) {
+					indexed := false
+					ast.Inspect(n.Body, func(y ast.Node) bool {
+						if ix, ok := y.(*ast.IndexExpr); ok && isField(ix.X) && exprKey(ix.Index) == exprKey(init.Lhs[0]) {
+							indexed = true
+						}
+						return true
+					})
+					if indexed {
+						covered = true
+					}
+				}
+			}
+		}
+		return true
+	})
+	return covered
 }
